@@ -524,12 +524,153 @@ def check_stoch(prog, noise, runs, pattern):
     return out + [("@stoch", "")]
 
 
+
+# ---- F. legacy emulator as a stateful object: every history of configuration calls ------------------------------------
+# A QutipEmulator carries (configuration, initial state, evaluation times).  Every history of <= DEPTH calls over the menu
+# below is executed on ONE emulator; a plain reference model tracks the net settings and a FRESH emulator is configured
+# directly with them: the runs must agree state by state, a zero drive without noise must return the initial state, and a
+# resonant pi pulse the analytic populations.
+def _f_cfg(key):
+    from pulser_simulation import SimConfig
+
+    return {
+        "default": SimConfig(),
+        "detect": SimConfig(noise=("SPAM",), eta=0.0, epsilon=0.1, epsilon_prime=0.05),
+        "dephasing": SimConfig(noise=("dephasing",), dephasing_rate=0.1),
+        "relaxation": SimConfig(noise=("relaxation",), relaxation_rate=0.2),
+    }[key]
+
+
+F_PARAMS = {"detect": dict(eta=0.0, epsilon=0.1, epsilon_prime=0.05), "dephasing": dict(dephasing_rate=0.1),
+            "relaxation": dict(relaxation_rate=0.2), "default": {}}
+F_NOISE = {"detect": "SPAM", "dephasing": "dephasing", "relaxation": "relaxation"}
+F_OPS = [("init", "plus"), ("init", "r"), ("init", "all-ground"),
+         ("set", "default"), ("set", "detect"), ("set", "dephasing"), ("add", "detect"), ("add", "dephasing"), ("add", "relaxation"),
+         ("reset",), ("eval", "Minimal"), ("eval", "list"), ("eval", 0.5)]
+
+
+def _f_state(label, n):
+    import qutip
+
+    if label == "all-ground":
+        return "all-ground"
+    if label == "plus":
+        v = np.ones(2**n) / math.sqrt(2**n)
+        return v
+    return qutip.tensor([qutip.basis(2, 0)] * n)  # all-r: 'r' is the first basis state
+
+
+def _f_apply(E, op, n, T):
+    if op[0] == "init":
+        E.set_initial_state(_f_state(op[1], n))
+    elif op[0] == "set":
+        E.set_config(_f_cfg(op[1]))
+    elif op[0] == "add":
+        E.add_config(_f_cfg(op[1]))
+    elif op[0] == "reset":
+        E.reset_config()
+    elif op[0] == "eval":
+        E.set_evaluation_times([0.0, T / 2000.0, T / 1000.0] if op[1] == "list" else op[1])
+
+
+def emu_history_cases(tier):
+    depth = 3 if tier == "quick" else 4
+    out = []
+    for prog in ("zero-drive", "rabi-pi"):
+        for d in range(1, depth + 1):
+            for h in itertools.product(range(len(F_OPS)), repeat=d):
+                if tier == "quick" and d == 3 and prog == "rabi-pi" and not any(F_OPS[i][0] == "init" for i in h):
+                    continue  # without a custom initial state the third level adds nothing for the second program
+                out.append(("emuhist", prog, h))
+    return out
+
+
+def check_emu_history(prog, h):
+    from pulser import Pulse, Register, Sequence
+    from pulser_simulation import QutipEmulator, SimConfig
+
+    dev = world_device()
+    seq = Sequence(Register({"q0": (0.0, 0.0)}), dev)
+    seq.declare_channel("g", "rydberg_global")
+    T = 100
+    seq.add(Pulse.ConstantPulse(T, 0.0 if prog == "zero-drive" else math.pi * 1000 / T, 0.0, 0.0), "g")
+    n = 1
+    E = QutipEmulator.from_sequence(seq, sampling_rate=1.0)
+    # reference model of the net settings
+    noises, params, init, ev = [], {}, "all-ground", None
+    out = []
+    for i in h:
+        op = F_OPS[i]
+        try:
+            _f_apply(E, op, n, T)
+        except Exception as e:
+            return [(f"C11:emulator-history:call-raises:{op[0]}:{type(e).__name__}", f"{[F_OPS[j] for j in h]}: {e}"[:250])]
+        if op[0] == "init":
+            init = op[1]
+        elif op[0] == "set":
+            noises = [F_NOISE[op[1]]] if op[1] in F_NOISE else []
+            params = dict(F_PARAMS[op[1]])
+        elif op[0] == "add":
+            if F_NOISE[op[1]] not in noises:
+                noises.append(F_NOISE[op[1]])
+                params.update(F_PARAMS[op[1]])
+        elif op[0] == "reset":
+            noises, params = [], {}
+        else:
+            ev = op[1]
+    hist = [F_OPS[j] for j in h]
+    fp_tail = "+".join(sorted({F_OPS[j][0] for j in h}))
+    # configuration reported by the object == the model's
+    cfg = E.config
+    want = SimConfig(noise=tuple(noises), **params)
+    if set(cfg.noise) != set(want.noise) or any(abs(getattr(cfg, k) - v) > 1e-12 for k, v in params.items()):
+        out.append((f"C11:emulator-history:config-differs:{fp_tail}", f"{hist}: emulator reports {cfg.noise} {[(k, getattr(cfg, k)) for k in params]}, "
+                    f"calls amount to {want.noise} {params}"))
+        return out
+    F = QutipEmulator.from_sequence(seq, sampling_rate=1.0, config=want)
+    if ev is not None:
+        _f_apply(F, ("eval", ev), n, T)
+    F.set_initial_state(_f_state(init, n))
+    rE, rF = E.run(), F.run()
+    tE, tF = np.asarray(rE._sim_times), np.asarray(rF._sim_times)
+    if len(tE) != len(tF) or np.abs(tE - tF).max() > 1e-12:
+        out.append((f"C11:emulator-history:times-differ:{fp_tail}", f"{hist}: {tE[:5]}.. vs fresh {tF[:5]}.."))
+        return out
+    worst = 0.0
+    for a, b in zip(rE.states, rF.states):
+        A_, B_ = a.full(), b.full()
+        if A_.shape != B_.shape:
+            worst = 9.0
+            break
+        worst = max(worst, float(np.abs(A_ - B_).max()))
+    if worst > 1e-6:
+        out.append((f"C11:emulator-history:run-differs-from-fresh-emulator:{fp_tail}",
+                    f"{hist}: max |state - state of a fresh emulator with config {want.noise}, initial state {init}| = {worst:.3g}"))
+    if not [x for x in noises if x != "SPAM"]:
+        # unitary evolution: zero drive keeps the initial state; a resonant pi pulse swaps r and g
+        psi0 = F.initial_state.full().ravel()
+        psiT = rE.states[-1].full().ravel()
+        if psiT.shape == psi0.shape:
+            if prog == "zero-drive":
+                fid = abs(np.vdot(psi0, psiT)) ** 2
+                if abs(fid - 1) > 1e-6:
+                    out.append((f"C11:emulator-history:zero-drive-changed-the-state:{fp_tail}", f"{hist}: fidelity with the initial state {init} = {fid:.6f}"))
+            else:
+                pr0 = abs(psi0[0]) ** 2
+                prT = abs(psiT[0]) ** 2
+                if abs(prT - (1 - pr0)) > 2e-3:
+                    out.append((f"C11:emulator-history:pi-pulse-populations:{fp_tail}", f"{hist}: P(r) {pr0:.4f} -> {prT:.4f}, analytic {1 - pr0:.4f}"))
+    return out + [("@emuhist", "")]
+
+
 def worker(case):
     with warnings.catch_warnings():
         warnings.simplefilter("ignore")
         k = case[0]
         if k == "stoch":
             return check_stoch(*case[1:])
+        if k == "emuhist":
+            return check_emu_history(case[1], case[2])
         if k == "ltape":
             return check_legacy_tape(*case[1:])
         if k == "sweep":
@@ -547,7 +688,7 @@ def run(tier, seed):
     res = Result("exploration")
     nmax = 1500 if tier == "quick" else 12000
     cases = [("sweep", T) for T in range(4, nmax + 1)]
-    cases += phys_cases(tier) + conv_cases(tier) + tape_cases(tier) + legacy_tape_cases(tier) + stoch_cases(tier)
+    cases += phys_cases(tier) + conv_cases(tier) + tape_cases(tier) + legacy_tape_cases(tier) + stoch_cases(tier) + emu_history_cases(tier)
     outs = gridx.run(worker, cases, chunksize=8)
     classes = {}
     for c, r in zip(cases, outs):
@@ -557,7 +698,7 @@ def run(tier, seed):
             else:
                 res.add(Violation(fp, d, {"engine": "emux", "case": repr(c)}))
     res.coverage = dict(
-        evaluations=len(cases), distinct_nontrivial=sum(classes.get(k, 0) for k in ("@sweep", "@phys", "@conv", "@tape", "@ltape", "@stoch")), exhaustive=True,
+        evaluations=len(cases), distinct_nontrivial=sum(classes.get(k, 0) for k in ("@sweep", "@phys", "@conv", "@tape", "@ltape", "@stoch", "@emuhist")), exhaustive=True,
         outcome_classes=classes, durations_swept=[4, nmax],
         rule="(A) every integer duration 4..N of a resonant constant pulse on a clock-1 device: legacy emulator norm and analytic Rabi "
              "population, V2 backend returns and stores the same final state; (B) 8 programs (Rabi, idle, detuned, two atoms, digital, "
@@ -566,7 +707,10 @@ def run(tier, seed):
              "1-4 atoms in each of the 8 eigenbases and measurement bases, as ket and density matrix: documented bitstring through the "
              "legacy result and the V2 state; (D) every tape of numpy.random answers (interval interiors and end points) for 1-2 shots "
              "on 4 distributions x 4 detection-error settings; (E) state-preparation errors with and without dissipation: every pattern "
-             "of badly prepared atoms over 2-3 runs (RNG tape), stored state physical and equal to the repetition-weighted mixture",
+             "of badly prepared atoms over 2-3 runs (RNG tape), stored state physical and equal to the repetition-weighted mixture; (F) the "
+             "legacy emulator as a stateful object: every history of <= 3 (thorough 4) calls over 13 configuration calls "
+             "(set_initial_state x 3, set_config x 3, add_config x 3, reset_config, set_evaluation_times x 3) on one emulator vs a "
+             "fresh emulator configured directly with the net settings of a plain reference model, for a zero drive and a pi pulse",
         samples=[repr(cases[i])[:160] for i in (0, len(cases) // 2, len(cases) - 1)])
     res.assumptions = ["solver accuracy: norms / traces 1e-5, positivity -1e-6, V2 vs legacy states 2e-4 (different evaluation grids change the adaptive steps); the analytic Rabi value is "
                        "required to lie in the range spanned by effective durations [T-1, T] (sample interpolation of the last, padded sample)", "randomness is owned by replacing "
